@@ -1213,3 +1213,72 @@ func c01R41(ic *IC, r *Report) {
 		r.Errorf("R01.41: no reuse of an existing symbol (lookup under the isRedeclared test) found in the assignStmt/defineStmt case of cfg")
 	}
 }
+
+func init() {
+	ruleText["R01.42"] = "a variable redeclared by a multiple short declaration keeps its type: in the assignStmt/defineStmt case of cfg, the block that marks a destination as redeclared (dest.redeclared = true) gives the destination the type of the existing symbol (dest.typ = sym.typ) and reports an error when the source is not assignable to it - otherwise the variable silently takes the type of the new value while its slot keeps the old one (= R12.37)"
+}
+
+// c01R42: D144. var fl float64 = 1; k, fl := 1, 2 panicked in reflect.Set; x := 1; a, x := 2, "s" too.
+func c01R42(ic *IC, r *Report, rule string) {
+	info := ic.Info
+	cfgFn := ic.fn(r, "Interpreter.cfg")
+	redFld := ic.field("node", "redeclared")
+	typFld := ic.field("node", "typ")
+	symTyp := ic.field("symbol", "typ")
+	if cfgFn == nil || redFld == nil || typFld == nil || symTyp == nil {
+		r.Errorf("%s: node.redeclared / node.typ / symbol.typ not found", rule)
+		return
+	}
+	n := 0
+	ast.Inspect(cfgFn.Decl.Body, func(q ast.Node) bool {
+		blk, ok := q.(*ast.BlockStmt)
+		if !ok {
+			return true
+		}
+		marks := false
+		for _, st := range blk.List {
+			if as, ok := st.(*ast.AssignStmt); ok && len(as.Lhs) == 1 && len(as.Rhs) == 1 {
+				if se, ok := unparen(as.Lhs[0]).(*ast.SelectorExpr); ok && selField(info, se) == redFld {
+					if id := identOf(as.Rhs[0]); id != nil && id.Name == "true" {
+						marks = true
+					}
+				}
+			}
+		}
+		if !marks {
+			return true
+		}
+		n++
+		keeps, checks := false, false
+		ast.Inspect(blk, func(z ast.Node) bool {
+			switch y := z.(type) {
+			case *ast.AssignStmt:
+				if len(y.Lhs) == 1 && len(y.Rhs) == 1 {
+					l, okl := unparen(y.Lhs[0]).(*ast.SelectorExpr)
+					rr, okr := unparen(y.Rhs[0]).(*ast.SelectorExpr)
+					if okl && okr && selField(info, l) == typFld && selField(info, rr) == symTyp {
+						keeps = true
+					}
+				}
+			case *ast.IfStmt:
+				if len(callsIn(info, y.Cond, true, "interp.itype.assignableTo")) > 0 && len(callsIn(info, y.Body, true, "interp.node.cfgErrorf")) > 0 {
+					checks = true
+				}
+			}
+			return true
+		})
+		why := ""
+		switch {
+		case !keeps:
+			why = "the destination does not take the type of the existing symbol"
+		case !checks:
+			why = "the source is not checked against the type of the existing symbol"
+		}
+		r.Check(why == "", rule, fmt.Sprintf("cfg/case:assignStmt/redeclared#%d/keeps-its-type", n), ic.pos(blk.Pos()), "a redeclared variable keeps the type of its symbol and the source is checked against it",
+			"in the block of the assignStmt/defineStmt case of cfg that marks a destination as redeclared, "+why+": the variable takes the type of the new value while its slot keeps the old one - `var fl float64 = 1; k, fl := 1, 2` panics (reflect.Set: value of type float64 is not assignable to type int), `var i interface{} = 1; j, i := 2, \"s\"` too, and `x := 1; a, x := 2, \"s\"` is accepted (compiled Go: cannot use \"s\" as int value)")
+		return true
+	})
+	if n == 0 {
+		r.Errorf("%s: no block marking a destination as redeclared found in cfg", rule)
+	}
+}
